@@ -1,9 +1,14 @@
+#![allow(dead_code)]
 mod flat;
 mod gen;
 mod mon;
 mod probe;
 
 mod c02;
+mod c03;
+mod c12;
+mod c16;
+mod sweep;
 
 use mon::*;
 
@@ -14,6 +19,9 @@ fn main() {
     let mut m = Mon::new(&a.prop);
     match a.prop.as_str() {
         "C02" => c02::run(&a, &mut m),
+        "C03" => c03::run(&a, &mut m),
+        "C12" => c12::run(&a, &mut m),
+        "C16" => c16::run(&a, &mut m),
         p => {
             eprintln!("unknown property {}", p);
             std::process::exit(3);
